@@ -56,15 +56,21 @@ structure PreOut where
   mtp : Nat := 0                -- bl.MedianPastTime as left by the call
   deriving Repr, DecidableEq
 
-/-- `ver < 2 && h >= BIP34Height || ver < 3 && h >= BIP66Height || ver < 4 && h >= BIP65Height` (all uint32) -/
+/-- `int32(bl.Version())`: two's complement reading of the uint32 header field -/
+def signedVersion (ver : Nat) : Int :=
+  let v : Nat := ver % 2^32
+  if v < 2^31 then (v : Int) else (v : Int) - 2^32
+
+/-- `ver < 2 && h >= BIP34Height || ver < 3 && h >= BIP66Height || ver < 4 && h >= BIP65Height`
+    (`ver` int32, heights uint32) -/
 def versionRejected (c : Consensus) (ver height : Nat) : Bool :=
-  (ver < minVersion_BIP34Height && height ≥ c.bip34Height) ||
-  (ver < minVersion_BIP66Height && height ≥ c.bip66Height) ||
-  (ver < minVersion_BIP65Height && height ≥ c.bip65Height)
+  (decide (signedVersion ver < minVersion_BIP34Height) && decide (height ≥ c.bip34Height)) ||
+  (decide (signedVersion ver < minVersion_BIP66Height) && decide (height ≥ c.bip66Height)) ||
+  (decide (signedVersion ver < minVersion_BIP65Height) && decide (height ≥ c.bip65Height))
 
 def preCheckBlock (p : Params) (c : Consensus) (i : PreIn) : Option PreOut :=
   if i.rawLen < preMinRawLen then some { dos := true, maybelater := false, err := .badLength }
-  else if i.ver = forbiddenVersion then some { dos := true, maybelater := false, err := .badVersion }
+  else if signedVersion i.ver = forbiddenVersion then some { dos := true, maybelater := false, err := .badVersion }
   else if !checkProofOfWork i.hash i.bits then some { dos := true, maybelater := false, err := .highHash }
   else if (i.time : Int) > i.now + maxFutureBlockTime then
     some { dos := decide ((i.time : Int) > i.now + futureDosLimit), maybelater := false, err := .timeTooNew }
@@ -113,6 +119,7 @@ structure Tx where
   ins : List TxIn
   in0Script : Bytes                      -- TxIn[0].ScriptSig (read for Txs[0] only)
   outs : List Bytes                      -- Pk_script of every output (contents read for Txs[0] only)
+  outValues : List Nat                   -- Value of every output (uint64)
   segwit : Option (List (List Bytes))    -- Tx.SegWit; none = nil
   txid : Bytes                           -- Hash.Hash
   wtxid : Bytes                          -- WTxID().Hash
@@ -127,18 +134,29 @@ def Tx.isCoinBase (t : Tx) : Bool :=
   | _ => false
 
 inductive TxErr
-  | vinEmpty | voutEmpty | oversize | cbLength | prevoutNull | nonFinal
+  | vinEmpty | voutEmpty | oversize | voutTooLarge | totalTooLarge | cbLength | prevoutNull | nonFinal
   deriving Repr, DecidableEq
 
 def TxErr.code : TxErr → String
   | .vinEmpty => "bad-txns-vin-empty" | .voutEmpty => "bad-txns-vout-empty" | .oversize => "bad-txns-oversize"
+  | .voutTooLarge => "bad-txns-vout-toolarge" | .totalTooLarge => "bad-txns-txouttotal-toolarge"
   | .cbLength => "bad-cb-length" | .prevoutNull => "bad-txns-prevout-null" | .nonFinal => "bad-txns-nonfinal"
+
+/-- the output-value loop of `CheckTransaction`: each value and the running (uint64) total against MAX_MONEY -/
+def checkOutValues : List Nat → Nat → Option TxErr
+  | [], _ => none
+  | v :: rest, total =>
+    if v > MAX_MONEY then some .voutTooLarge
+    else
+      let total := (total + v) % 2^64
+      if total > MAX_MONEY then some .totalTooLarge else checkOutValues rest total
 
 /-- `Tx.CheckTransaction` (`tx.NoWitSize*4` is a uint32 product) -/
 def checkTransaction (t : Tx) : Option TxErr :=
   if t.ins.length = 0 then some .vinEmpty
   else if t.outs.length = 0 then some .voutEmpty
   else if (t.noWitSize * 4) % 2^32 > txMaxWeight then some .oversize
+  else if let some e := checkOutValues t.outValues 0 then some e
   else if t.isCoinBase then
     match t.ins with
     | i :: _ => if i.scriptLen < cbScriptMin ∨ i.scriptLen > cbScriptMax then some .cbLength else none
